@@ -2,7 +2,8 @@
    The pre-decoder (DecodeUnverifiedBaseResponse) is xmlUnmarshalDocument (xml.Decoder.Decode, pass-through CharsetReader) on the raw bytes = the schema interpreter on the RAW
    token view; validation decodes etree's tree ([dedupe raw]: etree de-duplicates attributes) or the verified tree.
    Proved for the skip path and the unsigned-Response path, for every document without duplicated attribute names
-   (XML well-formedness); the known finding F9 (duplicated root attribute) is the refutation outside that premise.
+   (XML well-formedness), whatever its values contain; the known finding F9 (duplicated root attribute) is the refutation
+   outside that premise.
    For a signed Response the validated fields come from the signature oracle's output tree: agreement there is a law about
    goxmldsig (canonicalisation preserves attributes and child elements), checked by the correspondence run and the spec
    oracle, not proved. *)
@@ -52,11 +53,11 @@ Theorem C20_predecode_disagrees_on_signed_root_with_xmlns_named_attributes_refut
 Proof. exact predecode_disagrees_on_signed_root_with_xmlns_named_attributes. Qed.
 Print Assumptions C20_predecode_disagrees_on_signed_root_with_xmlns_named_attributes_refuted.
 
-(* the pre-decoder reads the received bytes directly (Schema.view_direct: no etree serialisation, no second end-of-line
-   normalisation); on a root without U+000D in its values that is the reading above, hence: *)
+(* the pre-decoder reads the received bytes directly (Schema.view_direct: no etree serialisation in between); validation
+   decodes xmlUnmarshalElement's serialisation, written with CanonicalText / CanonicalAttrVal since the repair of F13, i.e.
+   the element's values: the same reading, whatever the values contain (no premise about U+000D any more) *)
 Theorem C20_predecode_direct_agrees_when_root_unsigned : forall dsig decrypt cfg now raw r b,
   well_formed_attrs raw = true ->
-  cr_free raw = true ->
   (cfg_skip_sig cfg = true \/ dsig (dedupe raw) = DMissing) ->
   validate_response_tree dsig decrypt cfg now (dedupe raw) = Ok r ->
   unmarshal_base_response_direct raw = Ok b ->
@@ -64,6 +65,20 @@ Theorem C20_predecode_direct_agrees_when_root_unsigned : forall dsig decrypt cfg
   br_version b = r_version r /\ br_issuer b = r_issuer r.
 Proof. exact predecode_direct_agrees_when_root_unsigned. Qed.
 Print Assumptions C20_predecode_direct_agrees_when_root_unsigned.
+
+(* tie to the source text of this run: the etree write settings gen/ reads off the body of xmlUnmarshalElement
+   (Generated.xmlUnmarshalElement_write_settings) select the view the theorems above give to validation.  On a tree whose
+   xmlUnmarshalElement does not assign CanonicalText and CanonicalAttrVal (before 2164cf6, F13) this does not hold *)
+Theorem C20_source_xmlUnmarshalElement_writes_values_canonically : forall sch name root,
+  unmarshal_element_source sch name root = unmarshal_element sch name root.
+Proof. exact source_xmlUnmarshalElement_is_the_model. Qed.
+Print Assumptions C20_source_xmlUnmarshalElement_writes_values_canonically.
+
+(* the repair changed what validation decodes on trees with U+000D in a value only *)
+Theorem C20_repair_only_changes_values_with_carriage_return : forall root,
+  cr_free root = true -> unmarshal_response_original root = unmarshal_response root.
+Proof. exact unmarshal_response_original_cr_free. Qed.
+Print Assumptions C20_repair_only_changes_values_with_carriage_return.
 
 (* ---- the pre-decoder and the full decoder read the same, normative, binding table ---- *)
 From V Require Import SchemaDefs Generated SamlSchema P_SamlSchema.
@@ -114,10 +129,10 @@ Proof. exact predecode_reads_the_same_tokens. Qed.
 Print Assumptions C20_token_view_is_first_element.
 
 (* composition with C20_predecode_agrees_when_root_unsigned: agreement of the two decoders FROM THE BYTES, for every document
-   whose root has no duplicated attribute names and no U+000D in a value (one can only get there through &#13; / &#xD;) *)
+   whose root has no duplicated attribute names -- whatever its values contain (U+000D through &#13; / &#xD; included) *)
 Theorem C20_predecode_agrees_from_bytes : forall dsig decrypt cfg now s tree r b,
   read_tree s = Ok tree ->
-  (forall raw, read_root_raw s = Ok (Some raw) -> well_formed_attrs raw = true /\ cr_free raw = true) ->
+  (forall raw, read_root_raw s = Ok (Some raw) -> well_formed_attrs raw = true) ->
   (cfg_skip_sig cfg = true \/ dsig tree = DMissing) ->
   validate_response_tree dsig decrypt cfg now tree = Ok r ->
   predecode_bytes s = Ok b ->
@@ -188,21 +203,29 @@ Theorem C20_predecode_foreign_encoding_before_repair_refuted :
 Proof. exact predecode_foreign_encoding_before_repair_refuted. Qed.
 Print Assumptions C20_predecode_foreign_encoding_before_repair_refuted.
 
-(* outside the premise [cr_free]: the known finding F13, witnessed from the bytes.  InResponseTo="_q&#13;x" on the root: the
-   pre-decoder reports "_q<CR>x"; validation decodes etree's re-serialisation of the element, which writes U+000D raw (F8),
-   so the second tokenizer pass reads "_q<LF>x" (last conjunct: the mechanism, Build.etree_write then read_tree) *)
-Theorem C20_predecode_disagrees_on_cr_character_reference_refuted :
+(* F13, the defect repaired by 2164cf6, witnessed on the model of the code before.  InResponseTo="_q&#13;x" on the root: the
+   pre-decoder reports "_q<CR>x"; the ORIGINAL xmlUnmarshalElement re-serialised the element with etree's default write
+   settings, which write U+000D raw (F8), so the second tokenizer pass read "_q<LF>x" (mechanism: Build.etree_write then
+   read_tree).  The repaired one writes &#xD; and validation reports "_q<CR>x" as well (mechanism: Canon.c14n_write, the
+   writer under CanonicalText / CanonicalAttrVal, then read_tree gives the tree back).  Confirmed on the real decoders by
+   the fixed cases of the predecode stream (spec key predecode:disagrees:cr-char-reference). *)
+Theorem C20_predecode_disagrees_on_cr_character_reference_before_repair_refuted :
   read_tree f13_doc = Ok (Elem "samlp" "Response" (f13_attrs f13_cr_value) []) /\
   well_formed_attrs (Elem "samlp" "Response" (f13_attrs f13_cr_value) []) = true /\
   cr_free (Elem "samlp" "Response" (f13_attrs f13_cr_value) []) = false /\
   option_map br_in_response_to (match predecode_bytes f13_doc with Ok b => Some b | Err _ => None end) = Some f13_cr_value /\
   option_map r_in_response_to
-    (match unmarshal_response (Elem "samlp" "Response" (f13_attrs f13_cr_value) []) with Ok r => Some r | Err _ => None end)
+    (match unmarshal_response_original (Elem "samlp" "Response" (f13_attrs f13_cr_value) []) with Ok r => Some r | Err _ => None end)
     = Some f13_lf_value /\
   read_tree (Build.etree_write (Elem "samlp" "Response" (f13_attrs f13_cr_value) []))
-    = Ok (Elem "samlp" "Response" (f13_attrs f13_lf_value) []).
-Proof. exact predecode_disagrees_on_cr_reference. Qed.
-Print Assumptions C20_predecode_disagrees_on_cr_character_reference_refuted.
+    = Ok (Elem "samlp" "Response" (f13_attrs f13_lf_value) []) /\
+  option_map r_in_response_to
+    (match unmarshal_response (Elem "samlp" "Response" (f13_attrs f13_cr_value) []) with Ok r => Some r | Err _ => None end)
+    = Some f13_cr_value /\
+  read_tree (Canon.c14n_write (Elem "samlp" "Response" (f13_attrs f13_cr_value) []))
+    = Ok (Elem "samlp" "Response" (f13_attrs f13_cr_value) []).
+Proof. exact predecode_disagrees_on_cr_reference_before_repair. Qed.
+Print Assumptions C20_predecode_disagrees_on_cr_character_reference_before_repair_refuted.
 
 (* the pre-decoder never looks behind the first element's end tag *)
 Theorem C20_predecode_ignores_what_follows_the_root :
